@@ -87,7 +87,7 @@ class Collector:
             'expected': jsonable(expected),
             'observed': jsonable(observed),
             'detail': jsonable(detail),
-            'case': jsonable(self.case),
+            'case': json_case(self.case) if len(self.violations) < 3 else jsonable(self.case),
             'case_index': self.case_index,
             'python_optimize': self.python_optimize,
             'strict_warnings': self.strict_warnings,
@@ -180,3 +180,18 @@ def revive_ints(obj):
     if isinstance(obj, dict):
         return {k: revive_ints(v) for k, v in obj.items()}
     return obj
+
+
+def json_case(obj):
+    """A case written out completely (replay files must reproduce big cases too): no truncation,
+    very large ints as 'int:0x...' (see ``revive_ints``).  Falls back to ``jsonable`` for anything
+    that is not plain data."""
+    if isinstance(obj, int) and not isinstance(obj, bool) and obj.bit_length() > 12000:
+        return 'int:' + hex(obj)
+    if obj is None or isinstance(obj, (bool, int, float, str)):
+        return obj
+    if isinstance(obj, dict):
+        return {str(k): json_case(v) for k, v in obj.items()}
+    if isinstance(obj, (list, tuple)):
+        return [json_case(v) for v in obj]
+    return jsonable(obj)
